@@ -3495,11 +3495,15 @@ impl<'a, R: FileManager> FrontendCtx<'a, R> {
         }
         // a mapped type over `keyof T` is homomorphic: it keeps the optional modifier of T's properties
         let mut source_optional_keys: BTreeSet<String> = BTreeSet::new();
+        let mut bare_constraint = constraint;
+        while let TsType::TsParenthesizedType(p) = bare_constraint {
+            bare_constraint = p.type_ann.as_ref();
+        }
         if let TsType::TsTypeOperator(TsTypeOperator {
             op: TsTypeOperatorOp::KeyOf,
             type_ann: source,
             ..
-        }) = constraint
+        }) = bare_constraint
         {
             if let Ok(source) = self.extract_type(source, file_name.clone()) {
                 if let Ok(source_vs) = self.extract_object_from_runtype(&source, &anchor) {
